@@ -105,6 +105,18 @@ def run_case(case: dict) -> dict:
             else:
                 # all but the last notice are in the file already; the last one is requested with --merge-copyrights
                 *old, new = S
+                if case["via"] == "cli-new":
+                    # a file without any header; every notice is given on the command line, as a notice
+                    f.write_text("x = 1\n")
+                    args = ["--root", str(root), "annotate", "--merge-copyrights", "--exclude-year", "--license", "MIT"]
+                    for n in S:
+                        args += ["--copyright", concrete(n, hmap, tight)]
+                    r = core.run_reuse([*args, str(f)])
+                    if r["exc"] or r["exit"] != 0:
+                        ev["crash"] = (r["exc"] or r["out"] + r["err"])[-400:]
+                    ev["O"] = [parse_notice(x) for x in sorted(lint_notices(root))]
+                    ev["via"] = case["via"]
+                    return ev
                 if case["via"] == "cli-noadd":
                     old, new = S, None            # every notice is in the file already; the run adds a licence only
                 f.write_text("".join("# " + concrete(n, hmap, tight) + "\n" for n in old) + "# SPDX-License-Identifier: MIT\n\nx = 1\n"
@@ -168,10 +180,12 @@ def run(ctx: core.Ctx) -> int:
         S = g["S"]
         hs = rnd.sample(HOLDERS, 3)
         hmap = {"H1": hs[0], "H2": hs[1], "H3": hs[2]}
-        for via in ("api", "cli", "cli-noadd"):
+        for via in ("api", "cli", "cli-noadd", "cli-new"):
             if via == "cli" and (i % 2 or any(hmap.get(n["holder"]) == hmap.get(S[-1]["holder"]) and False for n in S)):
                 continue
             if via == "cli-noadd" and (i % 3 or len(S) < 2):
+                continue
+            if via == "cli-new" and (i % 3 != 1 or len(S) < 2):
                 continue
             S2 = list(S)
             rnd.shuffle(S2)
